@@ -74,6 +74,9 @@ pub enum GenerateError {
     /// Struct templates can not be exported yet
     UnsupportedStructTemplate,
 
+    /// Resources are spread over more bind groups than there are argument buffers
+    TooManyBindGroups,
+
     /// Metal does not allow precise as a type modifier - we need to propagate to all operations manually
     UnsupportedPrecise,
 
